@@ -202,10 +202,12 @@ CHECKS = {
               'submit_sm/deliver_sm lays out the seventeen mandatory fields in the order, widths and C-octet termination of '
               '4.4.1/4.6.1 for every in-range assignment; integer TLVs are tag/length/value big-endian; decoding direction: a body '
               'laid out as the specification prescribes - by whomever - is decoded to the field values it was built from, text in '
-              'short_message or in a message_payload parameter (decode_mandatory_fields, decode_message_payload). NOT theorems '
-              '(decided by correspondence + an independent Python encoder): bind bodies, string TLVs, choice of data_coding and text '
-              'octets, and the rest of the decoding direction (TLV permutations, omitted response bodies, '
-              'sc_interface_version, UDH 8/16-bit, NUL-terminated octet strings). Known finding udh-other-ie-first (a UDH whose '
+              'short_message or in a message_payload parameter (decode_mandatory_fields, decode_message_payload), followed by ANY '
+              'list of optional parameters laid out as tag/length/value - integers of width 1, 2, 4, ASCII strings with or without '
+              'NUL, flags, any tag but message_payload, any order and number - which are read back in order with the value type of '
+              'the regenerated tag table (decode_optional_params: induction over the parameter list through the TLV loop). NOT theorems '
+              '(decided by correspondence + an independent Python encoder): bind bodies against the reference, the encoder side of '
+              'string TLVs, choice of data_coding and text octets, omitted response bodies, sc_interface_version, UDH 8/16-bit. Known finding udh-other-ie-first (a UDH whose '
               'first element is not the concatenation element is misread; kernel-checked on the model, replayed on the code).'),
         note=COMMON_NOTE + 'Two hand transcriptions of SMPP 3.4 (Spec/Smpp34.lean, tools/spec/smpp.py) and of 3GPP TS 23.038 are the reference; an error common to both and to the code would go unseen.',
         technique='Lean 4 theorems (decide +kernel over whole tables via run-length structure, list-of-fields equality); differential correspondence + independent encoder in both directions'),
